@@ -100,7 +100,8 @@ class ReasonCode:
                                      PacketTypes.PUBREC, PacketTypes.SUBACK, PacketTypes.DISCONNECT], },
             152: {"Administrative action": [PacketTypes.DISCONNECT]},
             153: {"Payload format invalid":
-                  [PacketTypes.PUBACK, PacketTypes.PUBREC, PacketTypes.DISCONNECT]},
+                  [PacketTypes.CONNACK, PacketTypes.PUBACK,
+                   PacketTypes.PUBREC, PacketTypes.DISCONNECT]},
             154: {"Retain not supported":
                   [PacketTypes.CONNACK, PacketTypes.DISCONNECT]},
             155: {"QoS not supported":
